@@ -184,7 +184,7 @@ def enqueueFrameBuf : NetM Bool := do
   return r
 
 /-- `_validate_msg_len(length)` -/
-def validateMsgLen (length : Nat) : NetM Bool := do
+def nodeValidateMsgLen (length : Nat) : NetM Bool := do
   let n ← getNode
   if length > n.maxMessageLength then throw .valueError
   if length > MAX_FRAG_SIZE ∧ !n.fragEnabled then return false
@@ -277,7 +277,7 @@ def fragRetry : Nat → Nat → Bool → NetM Bool
     else return result
 
 /-- the fragment loop of `_write_to_pipe` (`left` = fragments still to send) -/
-def fragLoop : Nat → Nat → Nat → Nat → NetM Bool
+def nodeFragLoop : Nat → Nat → Nat → Nat → NetM Bool
   | 0, _, _, _ => throw .diverge
   | f + 1, total, msgT, left => do
     if left = 0 then return false   -- `range(total)` with total = 0 cannot happen (len > 24)
@@ -295,10 +295,10 @@ def fragLoop : Nat → Nat → Nat → Nat → NetM Bool
     let result ← fragRetry f 3 r
     if !result then return false
     if left = 1 then return true
-    fragLoop f total msgT (left - 1)
+    nodeFragLoop f total msgT (left - 1)
 
 /-- `_write_to_pipe(to_node, to_pipe, is_multicast)` -/
-def writeToPipe : Nat → Nat → Nat → Bool → NetM Bool
+def nodeWriteToPipe : Nat → Nat → Nat → Bool → NetM Bool
   | 0, _, _, _ => throw .diverge
   | f + 1, toNode, toPipe, isMulticast => do
     let n ← getNode
@@ -316,7 +316,7 @@ def writeToPipe : Nat → Nat → Nat → Bool → NetM Bool
       let msgLen := n.frameBuf.message.length
       let total := (if msgLen % MAX_FRAG_SIZE ≠ 0 then 1 else 0) + msgLen / MAX_FRAG_SIZE
       let msgT := n.frameBuf.header.ty
-      let result ← fragLoop f total msgT total
+      let result ← nodeFragLoop f total msgT total
       setHdr fun h => h.setTy msgT
       return result
 
@@ -434,13 +434,13 @@ def nodeWrite : Nat → Nat → Nat → NetM Bool
     let isAckT ← liftPy n.frameBuf.isAckType
     let (toNode, toPipe, isMulticast) := logi2phys n.a writeDirect sendType
     if sendType = TX_ROUTED ∧ writeDirect = toNode ∧ isAckT then sleepNs 2000000
-    let result ← writeToPipe f toNode toPipe isMulticast
+    let result ← nodeWriteToPipe f toNode toPipe isMulticast
     let n ← getNode
     if result ∧ isAckT then
       if sendType = TX_ROUTED ∧ toNode = writeDirect ∧ n.frameBuf.header.fromNode ≠ n.a.addr then
         setHdr fun h => { (h.setTy NETWORK_ACK) with toNode := h.fromNode }
         let (an, ap, mc) := logi2phys n.a n.frameBuf.header.fromNode TX_ROUTED
-        let _ ← writeToPipe f an ap mc
+        let _ ← nodeWriteToPipe f an ap mc
         liftRf (Rf24.setListen true)
         if !mc then liftRf (Rf24.setAutoAckAttr (.i 0x3E))
         return result
